@@ -155,7 +155,7 @@ def oracle(ctx, lines, out):
     r = ctx.rng
     conc = []
     for sym in ('qr', 'mq', 'rm'):
-        for i, p in enumerate(ctx.c09_payloads[: (8 if ctx.tier == 'quick' else 60)]):
+        for i, p in enumerate(getattr(ctx, 'c09_payloads', [])[: (8 if ctx.tier == 'quick' else 60)]):
             for kanji in (0, 1):
                 conc.append('api.conc %s %d %d %d %s' % (sym, LEVELS[sym][i % len(LEVELS[sym])], kanji, r.choice([2, 4, 8, 16]), p.hex() if p else '-'))
     env = {'GORACE': 'halt_on_error=1 exitcode=66'}
@@ -182,7 +182,7 @@ def oracle(ctx, lines, out):
             if cnt[key] <= 2:
                 v.append({'key': key, 'lines': [l], 'expect': 'ok', 'got': o[:100], 'detail': detail})
     for x in v:
-        x['detail'] += ' (%d such cases in this run)' % cnt[x['key']]
+        x['detail'] += ' (%d such cases in this run)' % cnt.get(x['key'], 1)
     return v
 
 
